@@ -10,6 +10,7 @@ Ev(op, d, m, b) == [op |-> op, d |-> d, m |-> m, b |-> b]
 MCNext == /\ n < MaxOps /\ n' = n + 1
           /\ \/ \E d \in Dialogs : Initial(d) /\ hist' = Append(hist, Ev("initial", d, "", ""))
              \/ \E d \in Dialogs, lg \in BOOLEAN : Answer(d, lg) /\ hist' = Append(hist, Ev("answer", d, IF lg THEN "long" ELSE "", ""))
+             \/ \E d \in Dialogs : Rejected(d) /\ hist' = Append(hist, Ev("answer", d, "reject", ""))
              \/ \E d \in Dialogs : ByeAnswered(d) /\ hist' = Append(hist, Ev("bye", d, "", ""))
              \/ \E d \in Dialogs : NotifyTerminated(d) /\ hist' = Append(hist, Ev("notify-term", d, "", ""))
              \/ \E d \in Dialogs, m \in Methods : InDialog(d, m) /\ hist' = Append(hist, Ev("indialog", d, m, ""))
